@@ -64,6 +64,9 @@ InitState(p) ==
    once |-> [x \in 1..(P.nonce + 4) |-> [st |-> "idle", owner |-> -1]],
    lzv |-> <<0, 0>>, lzdropped |-> {},
    tls |-> << <<>> >>, dty |-> <<FALSE>>, nm |-> <<-2>>, sc |-> << {} >>,
+   \* async: hand-written waker slots, JoinHandle slots, abort / detach marks
+   flg |-> [f \in 1..P.nflags |-> FALSE], fw |-> [f \in 1..P.nflags |-> -1],
+   inpoll |-> <<FALSE>>, det |-> <<FALSE>>, ab |-> <<FALSE>>, canc |-> <<FALSE>>, hasres |-> <<FALSE>>, resv |-> <<0>>, jw |-> <<-1>>, fut |-> <<FALSE>>, jtaken |-> <<FALSE>>,
    obs |-> [c \in 1..Len(P.tasks) |-> <<>>]]
 
 -----------------------------------------------------------------------------
@@ -72,7 +75,10 @@ InitState(p) ==
 Ph(s, t) == s.ph[t+1]
 SetPh(s, t, p) == [s EXCEPT !.ph[t+1] = p]
 \* a waker invocation: remember it (the flag is consumed by the task's next Pending)
-Wake(s, t) == IF TrackWoken /\ ~s.fin[t+1] THEN [s EXCEPT !.wk[t+1] = TRUE] ELSE s
+AsyncWait == {"fwait", "jwait"}
+Wake(s, t) == IF s.fin[t+1] THEN s
+              ELSE IF s.ph[t+1] \in AsyncWait THEN [s EXCEPT !.wk[t+1] = TrackWoken, !.xr[t+1] = TRUE]
+              ELSE IF TrackWoken THEN [s EXCEPT !.wk[t+1] = TRUE] ELSE s
 WakeAll(s, T) == [s EXCEPT !.wk = [i \in DOMAIN s.wk |-> IF TrackWoken /\ (i-1) \in T /\ ~s.fin[i] THEN TRUE ELSE s.wk[i]]]
 ClearXr(s, T) == [s EXCEPT !.xr = [i \in DOMAIN s.xr |-> IF (i-1) \in T THEN FALSE ELSE s.xr[i]]]
 \* entering a poll-protocol wait: a stale wake credit buys one extra runnable round
@@ -164,6 +170,18 @@ TlsKill(s, t) ==      \* the first live slot is destructed
   LET i == CHOOSE j \in 1..Len(s.tls[t+1]) : s.tls[t+1][j].live /\ \A h \in 1..(j-1) : ~s.tls[t+1][h].live IN
   [s EXCEPT !.tls[t+1][i].live = FALSE]
 
+\* between two polls of a future task (never polled yet, or Pending): here an abort takes effect
+AtPollBoundary(s, t) ==
+  /\ s.fut[t+1] /\ ~s.inpoll[t+1]
+  /\ \/ (Ph(s, t) = "ready" /\ s.pc[t+1] = 1)
+     \/ Ph(s, t) \in {"ypend", "fwait", "jwait"}
+     \/ (Ph(s, t) = "wait" /\ NextOp(s, t).k = "acquire")
+MustCancel(s, t) == s.ab[t+1] /\ ~s.canc[t+1] /\ AtPollBoundary(s, t)
+\* the first poll of a spawned future begins (an abort arriving later in this poll takes effect at the next one)
+StartsPoll(s, t) == s.fut[t+1] /\ ~s.inpoll[t+1] /\ ~s.ab[t+1] /\ Ph(s, t) = "ready" /\ s.pc[t+1] = 1
+\* an aborted task sleeping in an async acquire was woken by the abort (the wake made it runnable)
+MustCancelWake(s, t) == s.ab[t+1] /\ ~s.canc[t+1] /\ s.fut[t+1] /\ s.xr[t+1]
+
 -----------------------------------------------------------------------------
 (* Diagnosed misuse: the operation panics instead of blocking forever *)
 
@@ -182,7 +200,11 @@ CanComplete(s, t) ==
   LET o == NextOp(s, t)  p == Ph(s, t) IN
   /\ ~s.fin[t+1]
   /\ PanicKind(s, t) = ""
+  /\ ~MustCancel(s, t)       \* an aborted future is dropped at its next poll: it performs no further step
   /\ CASE o.k = "lock" -> p \in {"ready", "wait"} /\ MFree(s, o.o)
+       [] o.k = "ayield" -> p = "ypend"
+       [] o.k = "await_flag" -> p \in {"ready", "fpoll"} /\ s.flg[o.o+1]
+       [] o.k = "await_join" -> s.hasres[ChildId(s, o.v) + 1] \/ s.jtaken[ChildId(s, o.v) + 1]
        [] o.k = "join" -> HasChild(s, o.v) /\ s.fin[ChildId(s, o.v) + 1]
        [] o.k = "scope_end" -> \A c \in s.sc[t+1] : ClosureReturned(s, c)
        [] o.k = "exit" -> FALSE
@@ -210,20 +232,45 @@ CanComplete(s, t) ==
 Complete(s, t) ==
   LET o == NextOp(s, t)
       p == Ph(s, t)
-      base == [s EXCEPT !.pc[t+1] = @ + 1, !.ph[t+1] = "ready", !.ind[t+1] = 0, !.xr[t+1] = FALSE]
+      base == [s EXCEPT !.pc[t+1] = @ + 1, !.ph[t+1] = "ready", !.ind[t+1] = 0, !.xr[t+1] = FALSE,
+                        !.inpoll[t+1] = s.fut[t+1]]     \* a future task that completes a step is inside a poll
       R(r, s2) == [r |-> r, s |-> [s2 EXCEPT !.acc[t+1] = r]]
   IN
-  CASE o.k \in {"spawn", "spawn_named", "sspawn"} ->
-         R(s.n, [base EXCEPT !.n = @ + 1, !.ix = Append(@, o.v), !.pc = Append(@, 1), !.ph = Append(@, "ready"),
+  CASE o.k \in {"spawn", "spawn_named", "sspawn", "spawn_future"} ->
+         R(IF o.k = "spawn_future" THEN 0 ELSE s.n, [base EXCEPT !.n = @ + 1, !.ix = Append(@, o.v), !.pc = Append(@, 1), !.ph = Append(@, "ready"),
                              !.fin = Append(@, FALSE), !.acc = Append(@, 0), !.retv = Append(@, 0), !.ind = Append(@, 0),
                              !.wk = Append(@, FALSE), !.xr = Append(@, FALSE), !.tok = Append(@, FALSE),
                              !.unpk = Append(@, FALSE), !.gd = Append(@, [i \in 1..NSlots |-> NoGuard]),
                              !.tls = Append(@, <<>>), !.dty = Append(@, FALSE),
+                             !.inpoll = Append(@, FALSE), !.det = Append(@, FALSE), !.ab = Append(@, FALSE), !.canc = Append(@, FALSE),
+                             !.hasres = Append(@, FALSE), !.resv = Append(@, 0), !.jw = Append(@, -1), !.jtaken = Append(@, FALSE),
+                             !.fut = Append(@, o.k = "spawn_future"),
                              !.sc = Append(IF o.k = "sspawn" THEN [s.sc EXCEPT ![t+1] = @ \cup {o.v}] ELSE s.sc, {}),
                              !.nm = Append(@, IF o.k = "spawn_named" THEN o.v ELSE -1)])
     [] o.k = "join" -> R(s.retv[ChildId(s, o.v) + 1], base)
     [] o.k \in {"yield", "spin"} -> R(0, Wake(base, t))
-    [] o.k \in {"sleep", "nop", "scope_begin"} -> R(0, base)
+    [] o.k \in {"sleep", "nop", "scope_begin", "bo_begin"} -> R(0, base)
+    [] o.k = "bo_end" -> R(s.acc[t+1], base)
+    \* ---- async
+    [] o.k = "ayield" -> R(0, base)
+    [] o.k = "await_flag" -> R(0, base)
+    [] o.k = "await_join" -> LET u == ChildId(s, o.v) IN
+                             IF s.jtaken[u+1] THEN R(-6, base)
+                             ELSE R(s.resv[u+1], [base EXCEPT !.hasres[u+1] = FALSE, !.jtaken[u+1] = TRUE])
+    \* one poll of the JoinHandle with a waker that does nothing: the result if it is there, else -5 (and the
+    \* registered waker is now a useless one, until a later poll replaces it)
+    [] o.k = "try_join" -> LET u == ChildId(s, o.v) IN
+                           IF s.hasres[u+1] THEN R(s.resv[u+1], [base EXCEPT !.hasres[u+1] = FALSE, !.jtaken[u+1] = TRUE])
+                           ELSE R(-5, [base EXCEPT !.jw[u+1] = -2])
+    [] o.k = "set_flag" ->
+         LET b2 == [base EXCEPT !.flg[o.o+1] = TRUE, !.fw[o.o+1] = -1] IN
+         R(0, IF s.fw[o.o+1] # -1 THEN Wake(b2, s.fw[o.o+1]) ELSE b2)
+    [] o.k = "wake_only" -> IF s.fw[o.o+1] # -1 THEN R(1, Wake(base, s.fw[o.o+1])) ELSE R(0, base)
+    [] o.k = "abort" ->
+         LET u == ChildId(s, o.v) IN
+         IF s.ab[u+1] THEN R(0, base) ELSE R(0, Wake([base EXCEPT !.ab[u+1] = TRUE], u))
+    [] o.k = "detach" -> R(0, [base EXCEPT !.det[ChildId(s, o.v) + 1] = TRUE])
+    [] o.k = "is_finished" -> R(IF s.fin[ChildId(s, o.v) + 1] THEN 1 ELSE 0, base)
     \* thread::scope returns once the closure of every scoped thread has returned
     [] o.k = "scope_end" -> R(0, [base EXCEPT !.sc[t+1] = {}])
     [] o.k = "acc" -> R(s.acc[t+1], base)
@@ -365,14 +412,34 @@ Complete(s, t) ==
 (* Unlogged internal progress of t inside its next operation *)
 
 \* phases in which the task is suspended (a scheduling decision follows)
-Terminal(p) == p \in {"wait", "cvwait", "parked", "relockwait", "once_wait"}
+Terminal(p) == p \in {"wait", "cvwait", "parked", "relockwait", "once_wait", "ypend", "fwait", "fpoll", "jwait"}
+\* the future is dropped: it leaves every queue, its result is Cancelled, only its destructors remain
+Cancel(s, t) ==
+  LET o == NextOp(s, t)
+      s1 == IF Ph(s, t) = "wait" /\ o.k = "acquire"
+            THEN LET sm == s.sem[o.o+1]
+                     sm1 == [sm EXCEPT !.q = SelectSeq(@, LAMBDA w : w.t # t)]
+                     \* a granted but never collected acquisition gives its permits back; a fair head that leaves promotes the next
+                     sm2 == IF t \in sm.granted THEN [sm1 EXCEPT !.granted = @ \ {t}, !.avail = @ + o.v] ELSE sm1
+                     sm3 == IF sm.fair THEN GrantFront(sm2) ELSE sm2 IN
+                 WakeAll([s EXCEPT !.sem[o.o+1] = sm3],
+                         IF sm.fair THEN sm3.granted \ sm2.granted ELSE {w \in SemWaiters(s, o.o) \ {t} : SemReq(s, o.o, w) <= sm3.avail})
+            ELSE s
+      \* a JoinHandle the future was awaiting is dropped with it: that detaches the awaited task
+      s2 == IF Ph(s, t) = "jwait" /\ o.k = "await_join" THEN [s1 EXCEPT !.det[ChildId(s, o.v) + 1] = TRUE] ELSE s1
+  IN [s2 EXCEPT !.canc[t+1] = TRUE, !.pc[t+1] = Len(Code(s, t)) + 2, !.ph[t+1] = "ready", !.xr[t+1] = FALSE,
+                !.retv[t+1] = -8]
 
 CanBlock(s, t) ==
   LET o == NextOp(s, t)  p == Ph(s, t) IN
   /\ ~s.fin[t+1]
   /\ PanicKind(s, t) = ""
-  /\ CASE p = "ready" ->
+  /\ IF MustCancel(s, t) \/ StartsPoll(s, t) THEN TRUE ELSE
+     CASE p = "ready" ->
             (CASE o.k = "cv_wait" -> TRUE
+               [] o.k = "ayield" -> TRUE
+               [] o.k = "await_flag" -> ~s.flg[o.o+1]
+               [] o.k = "await_join" -> ~s.hasres[ChildId(s, o.v) + 1] /\ ~s.jtaken[ChildId(s, o.v) + 1]
                [] o.k = "park" -> ~s.tok[t+1]
                [] o.k = "exit" -> TlsLive(s, t) = <<>>     \* every thread-local destructor has run
                [] o.k \in OnceOps \cup LazyOps -> s.once[OIdx(s, t)+1].st # "done"
@@ -380,16 +447,26 @@ CanBlock(s, t) ==
                [] OTHER -> FALSE)
        [] p = "cvwait" -> HasSignal(s, o.o, t)
        [] p = "relock" -> ~MFree(s, o.v)
-       [] p \in {"wait", "relockwait"} -> s.xr[t+1] /\ ~CanComplete(s, t)
+       [] p \in {"wait", "relockwait", "jwait"} -> s.xr[t+1] /\ ~CanComplete(s, t)
+       [] p = "fwait" -> s.xr[t+1]
+       [] p = "fpoll" -> ~s.flg[o.o+1]
        [] p = "once_wait" -> s.once[OIdx(s, t)+1].owner = -1 \/ s.xr[t+1]
        [] p \in {"once_lk", "once_in", "once_body"} -> TRUE
        [] p \in {"once_skip", "once_fin"} -> o.k \in LazyOps
        [] OTHER -> FALSE
 
-Block(s, t) ==
+BlockRaw(s, t) ==
   LET o == NextOp(s, t)  p == Ph(s, t) IN
+  IF MustCancel(s, t) THEN Cancel(s, t) ELSE
+  IF StartsPoll(s, t) THEN s ELSE     \* (the wrapper below records that the task is inside a poll now)
   CASE p = "ready" ->
-        (CASE o.k = "exit" -> [s EXCEPT !.fin[t+1] = TRUE, !.ph[t+1] = "fin"]
+        (CASE o.k = "exit" ->   \* result published, joiner woken, finished
+                LET s1 == [s EXCEPT !.fin[t+1] = TRUE, !.ph[t+1] = "fin", !.hasres[t+1] = TRUE, !.resv[t+1] = s.retv[t+1]] IN
+                IF s.jw[t+1] >= 0 THEN Wake(s1, s.jw[t+1]) ELSE s1
+           \* yield_now().await: wake self, request a yield, Pending (the wake is consumed at once)
+           [] o.k = "ayield" -> [s EXCEPT !.ph[t+1] = "ypend", !.wk[t+1] = FALSE]
+           [] o.k = "await_flag" -> EnterPollWait([s EXCEPT !.fw[o.o+1] = t], t, "fwait")
+           [] o.k = "await_join" -> EnterPollWait([s EXCEPT !.jw[ChildId(s, o.v) + 1] = t], t, "jwait")
            [] o.k = "cv_wait" ->    \* release the mutex (the guard is consumed), enqueue as a waiter
                 MRelease([s EXCEPT !.ph[t+1] = "cvwait", !.gd[t+1][o.w+1] = NoGuard,
                                    !.cv[o.o+1].list = Append(@, [t |-> t, toks |-> <<>>, bc |-> FALSE])], o.v)
@@ -406,7 +483,10 @@ Block(s, t) ==
          IF s.once[OIdx(s, t)+1].owner = -1 THEN OnceAcquire(s, t, OIdx(s, t)) ELSE EnterPollWait(s, t, "once_wait")
     [] p = "cvwait" -> SetPh(Consume(s, o.o, t), t, "relock")
     [] p = "relock" -> EnterPollWait(s, t, "relockwait")
-    [] p \in {"wait", "relockwait"} -> Repoll(s, t)
+    [] p \in {"wait", "relockwait", "jwait"} -> Repoll(s, t)
+    \* a woken flag-future is polled again: its first action is the (atomic) load of the flag
+    [] p = "fwait" -> [s EXCEPT !.ph[t+1] = "fpoll", !.xr[t+1] = FALSE]
+    [] p = "fpoll" -> EnterPollWait([s EXCEPT !.fw[o.o+1] = t], t, "fwait")
     [] p = "once_wait" ->
          IF s.once[OIdx(s, t)+1].owner = -1 THEN OnceAcquire(s, t, OIdx(s, t))
          ELSE Repoll(s, t)
@@ -419,13 +499,23 @@ Block(s, t) ==
     \* a lazy static: the internal lock is released, the access itself follows
     [] p \in {"once_skip", "once_fin"} -> SetPh(OnceRelease(s, OIdx(s, t)), t, "lz_go")
 
+\* Pending ends the poll; any other internal step of a future task happens inside one
+PendingPhase(p) == p \in {"ypend", "fwait", "jwait"} \/ p = "wait"
+Block(s, t) ==
+  LET r == BlockRaw(s, t) IN
+  IF s.fut[t+1] /\ ~r.fin[t+1]
+  THEN [r EXCEPT !.inpoll[t+1] = ~(PendingPhase(r.ph[t+1]) /\ (r.ph[t+1] # "wait" \/ NextOp(r, t).k = "acquire"))]
+  ELSE r
+
 -----------------------------------------------------------------------------
 (* Scheduler-visible status, derived from the abstract state *)
 
 Progress(s, t) ==
   LET o == NextOp(s, t)  p == Ph(s, t) IN
   CASE p = "ready" -> TRUE
-    [] p = "wait" -> CanComplete(s, t) \/ (o.k \in {"lock", "read", "write", "acquire"} /\ s.xr[t+1])
+    [] p = "wait" -> CanComplete(s, t) \/ (o.k \in {"lock", "read", "write", "acquire"} /\ s.xr[t+1]) \/ MustCancelWake(s, t)
+    [] p \in {"ypend", "fpoll"} -> TRUE
+    [] p \in {"fwait", "jwait"} -> s.xr[t+1] \/ (p = "jwait" /\ CanComplete(s, t))
     [] p = "cvwait" -> HasSignal(s, o.o, t)
     [] p = "relock" -> TRUE
     [] p = "relockwait" -> MFree(s, o.v) \/ s.xr[t+1]
@@ -444,9 +534,10 @@ BoundHit(s) == StepsUsed(s) >= BoundN(s)
 MustOffer(s) == {t \in Live(s) : Progress(s, t)}
 Spurious(s) == {t \in Live(s) : Ph(s, t) = "parked" /\ ~s.unpk[t+1]}
 Unfinished(s) == Live(s)
-\* every task is attached in the std-thread fragment
-Ends(s) == MustOffer(s) = {}
-Verdict(s) == IF Unfinished(s) = {} THEN "ok" ELSE "deadlock"
+Attached(s) == {t \in Live(s) : ~s.det[t+1]}
+\* the execution ends when nothing can progress, or when only detached tasks are left: those are cut off
+Ends(s) == MustOffer(s) = {} \/ (Attached(s) = {} /\ \A t \in MustOffer(s) : s.det[t+1])
+Verdict(s) == IF Attached(s) = {} THEN "ok" ELSE "deadlock"
 
 -----------------------------------------------------------------------------
 (* Invariants over the abstract state (checked on every state TLC reaches, and therefore on
